@@ -188,6 +188,12 @@ func init() {
 				nilio = allEncodings()
 			}
 			jobs = append(jobs, stepJobs(nilio, "VC05NilIO")...)
+			// two acceptances in a row, the second on a freshly attached memory: every access goes there
+			for k1 := 0; k1 <= 2; k1++ {
+				for k2 := 0; k2 <= 2; k2++ {
+					jobs = append(jobs, Job{Dir: "z80", Harness: "VC06AcceptTwice", Params: []int{k1, k2}, Label: fmt.Sprintf("VC06AcceptTwice/k%d/k%d", k1, k2)})
+				}
+			}
 			// with a refused maskable request pending the Step makes the same accesses
 			jobs = append(jobs, stepJobs(allEncodings(), "VStepRefused")...)
 			// the same instruction again on the same CPU object but on entirely fresh memory:
@@ -200,6 +206,9 @@ func init() {
 		Only: func(job Job, a string) bool {
 			if job.Harness == "VC05NilIO" {
 				return true
+			}
+			if job.Harness == "VC06AcceptTwice" {
+				return inSet(a, "old-memory-untouched", "two-stack-writes")
 			}
 			return inSet(a, "tracelen", "trace", "rmw-order", "portcount", "ports", "unsupported")
 		},
@@ -434,6 +443,11 @@ func init() {
 					}
 				}
 			}
+			for k1 := 0; k1 <= 2; k1++ {
+				for k2 := 0; k2 <= 2; k2++ {
+					mk("VC06AcceptTwice", fmt.Sprintf("k%d/k%d", k1, k2), k1, k2)
+				}
+			}
 			mk("VC06Ctor", "ctor")
 			mk("VC06ScenarioEI", "s")
 			mk("VC06ScenarioNested", "s")
@@ -514,6 +528,9 @@ func init() {
 			maxN := 4
 			if tier == "thorough" {
 				maxN = 8
+			}
+			for _, op := range []int{0xa0, 0xa8, 0xb0, 0xb8, 0xa1, 0xb1} {
+				jobs = append(jobs, Job{Dir: "z80", Harness: "VC09SwapDumb", Params: []int{op}, Label: fmt.Sprintf("VC09SwapDumb/ed%02x", op), MaxForks: 256})
 			}
 			for _, op := range []int{0xb0, 0xb8, 0xb1, 0xb9, 0xb2, 0xba, 0xb3, 0xbb} {
 				for n := 1; n <= maxN; n++ {
@@ -600,6 +617,11 @@ func init() {
 			// maskable request pending at entry (accepted, refused or never consumable)
 			jobs = append(jobs, Job{Dir: "z80", Harness: "VC08Script", Params: []int{0, 3, 2}, Label: "VC08Script/run-returns-on-halt/any-im", MaxForks: 4096, MaxPaths: 100000})
 			jobs = append(jobs, Job{Dir: "z80", Harness: "VC08Script", Params: []int{0, 3, 1}, Label: "VC08Script/run-returns-on-halt/nmi", MaxForks: 4096, MaxPaths: 100000})
+			// ... also when the context is cancelled in the very Step that halts or hits a
+			// breakpoint (a Run that deadlocks there is confirmed natively under the watchdog)
+			for _, ps := range [][]int{{-1, 2, 0}, {0, 2, 0}, {1, 2, 1}} {
+				jobs = append(jobs, Job{Dir: "z80", Harness: "VC13Script", Params: ps, Label: fmt.Sprintf("VC13Script/run-returns/at%d/k%d/bp%d", ps[0], ps[1], ps[2]), MaxForks: 4096, MaxPaths: 100000, ProbeHang: true})
+			}
 			// termination probe for the single-Step jobs: if the exploration is cut short inside a loop,
 			// look for an input on which the real Step does not come back
 			for k := range jobs {
@@ -616,6 +638,9 @@ func init() {
 				}
 				// unsupported encodings are consumed: PC past the fetched bytes, R advanced, nothing else
 				return classify(Enc{job.Params[0], job.Params[1]}) == "invalid" && !inSet(a, "rmw-order")
+			}
+			if job.Harness == "VC13Script" {
+				return a == "nopanic"
 			}
 			if job.Harness == "VC08Script" {
 				// C12's clause is only that Run returns (normally) once its program halts;
@@ -740,7 +765,7 @@ func init() {
 							continue
 						}
 					}
-					jobs = append(jobs, Job{Dir: "z80", Harness: "VC13Script", Params: []int{at, kk, bp}, Label: fmt.Sprintf("VC13Script/at%d/k%d/bp%d", at, kk, bp), MaxForks: 4096, MaxPaths: 100000})
+					jobs = append(jobs, Job{Dir: "z80", Harness: "VC13Script", Params: []int{at, kk, bp}, Label: fmt.Sprintf("VC13Script/at%d/k%d/bp%d", at, kk, bp), MaxForks: 4096, MaxPaths: 100000, ProbeHang: true})
 				}
 			}
 			// Run; the caller cancels the first context; Run again on the same CPU (eager and lazy schedule)
@@ -756,8 +781,11 @@ func init() {
 			}
 			for kind := 0; kind <= 13; kind++ {
 				for at := 0; at <= maxAt; at++ {
-					for mode := 0; mode <= 3; mode++ {
-						if mode > 0 && !(kind == 0 || kind == 3 || kind == 13) {
+					for mode := 0; mode <= 4; mode++ {
+						if mode > 0 && !(kind == 0 || kind == 3 || kind == 13) && !(mode == 4 && kind == 1) {
+							continue
+						}
+						if mode == 4 && (kind > 1 || at > 2) {
 							continue
 						}
 						jobs = append(jobs, Job{Dir: "z80", Harness: "VC13Loop", Params: []int{kind, at, mode}, Label: fmt.Sprintf("VC13Loop/kind%d/at%d/mode%d", kind, at, mode), MaxForks: 256, MaxPaths: 2000})
@@ -908,14 +936,17 @@ func init() {
 		Jobs: func(tier string, seed int64) []Job {
 			var jobs []Job
 			for _, k := range []int{1, 5, 12} {
-				jobs = append(jobs, Job{Dir: "cim2bin", Harness: "VC19Bin", Params: []int{k}, Label: fmt.Sprintf("VC19Bin/k%d", k), MaxPaths: 64})
+				jobs = append(jobs, Job{Dir: "cim2bin", Harness: "VC19Bin", Params: []int{k, 0}, Label: fmt.Sprintf("VC19Bin/k%d", k), MaxPaths: 64})
 			}
 			for k := 1; k <= 12; k++ {
-				jobs = append(jobs, Job{Dir: "cim2cas", Harness: "VC19Cas", Params: []int{k, 0}, Label: fmt.Sprintf("VC19Cas/file%d/default-name", k), MaxPaths: 64})
+				jobs = append(jobs, Job{Dir: "cim2cas", Harness: "VC19Cas", Params: []int{k, 0, 0}, Label: fmt.Sprintf("VC19Cas/file%d/default-name", k), MaxPaths: 64})
 			}
 			for m := 1; m <= 12; m++ {
-				jobs = append(jobs, Job{Dir: "cim2cas", Harness: "VC19Cas", Params: []int{8, m}, Label: fmt.Sprintf("VC19Cas/file8/nam%d", m), MaxPaths: 64})
+				jobs = append(jobs, Job{Dir: "cim2cas", Harness: "VC19Cas", Params: []int{8, m, 0}, Label: fmt.Sprintf("VC19Cas/file8/nam%d", m), MaxPaths: 64})
 			}
+			// conversion in place: -cim names the output file
+			jobs = append(jobs, Job{Dir: "cim2bin", Harness: "VC19Bin", Params: []int{7, 1}, Label: "VC19Bin/in-place", MaxPaths: 64})
+			jobs = append(jobs, Job{Dir: "cim2cas", Harness: "VC19Cas", Params: []int{7, 3, 1}, Label: "VC19Cas/in-place", MaxPaths: 64})
 			return jobs
 		},
 		Bounds: map[string]interface{}{"image": "length L symbolic 1..65536 with symbolic content (the body is one chunk), offset symbolic with off+L-1 <= 0xFFFF", "names": "file name length 1..12 (default name), -nam length 1..12, case split; characters symbolic"},
